@@ -2,7 +2,7 @@
 """tools/try_seed.py <seed-dir-name> [property ids...] [--tier quick]
 Applies /verif/seeded/<name>/patch.diff to /repo, runs the checks, reverts.
 Prints per check: exit code and VIOLATION lines. Never leaves /repo dirty."""
-import json, os, subprocess, sys, time
+import fcntl, json, os, subprocess, sys, time
 VERIF = os.path.dirname(os.path.dirname(os.path.abspath(__file__)))
 def sh(cmd, **kw):
     return subprocess.run(cmd, shell=True, text=True, stdout=subprocess.PIPE, stderr=subprocess.STDOUT, **kw)
@@ -16,6 +16,11 @@ def main():
     d = os.path.join(VERIF, "seeded", name)
     meta = json.load(open(os.path.join(d, "meta.json")))
     props = args or [meta["property"]]
+    # one mutated tree at a time, and no check builds from /repo while it is mutated
+    os.makedirs(os.path.join(VERIF, "target"), exist_ok=True)
+    lk = open(os.path.join(VERIF, "target", ".check.lock"), "w")
+    fcntl.flock(lk, fcntl.LOCK_EX)
+    os.environ["VERIF_LOCK_HELD"] = "1"
     st = sh("git -C /repo status --porcelain --untracked-files=no").stdout.strip()
     if st:
         print("refusing: /repo is dirty:\n" + st); sys.exit(2)
